@@ -87,6 +87,14 @@ def mutants_of(rel, path):
         for m in re.finditer(r"(?<![\w)\]])!(?=[\w(])", body):
             if not body[m.end():].startswith("="):
                 out.append((rel, k, m.start(), m.end(), "", "drop-not"))
+        st = body.strip()
+        if st.endswith(";") and not st.startswith(("let ", "return", "pub ", "const ", "static ", "type ", "fn ", "}")) and "=>" not in st:
+            out.append((rel, k, len(body) - len(body.lstrip()), len(body.rstrip()), "", "del"))
+        for a, b in ((".min(", ".max("), (".max(", ".min("), (".rev()", ""), ("wrapping_sub", "wrapping_add"), ("saturating_sub", "saturating_add"),
+                     ("trailing_zeros", "leading_zeros"), ("leading_zeros", "trailing_zeros"), ("count_ones", "count_zeros"), (".any(", ".all("), (".all(", ".any("),
+                     ("split_whitespace", "split_ascii_whitespace"), ("to_ascii_uppercase", "to_ascii_lowercase")):
+            for m in re.finditer(re.escape(a), body):
+                out.append((rel, k, m.start(), m.end(), b, "call"))
         for m in LIT.finditer(body):
             t = m.group(1)
             try:
@@ -107,10 +115,18 @@ def mutants_of(rel, path):
 
 
 def run(cmd, cwd=None, timeout=600, env=None):
+    # own process group, killed as a whole on timeout (a mutant that loops for ever runs in a grandchild of cargo)
+    import signal
+    p = subprocess.Popen(cmd, cwd=cwd, stdout=subprocess.PIPE, stderr=subprocess.STDOUT, text=True, env=env, start_new_session=True)
     try:
-        p = subprocess.run(cmd, cwd=cwd, stdout=subprocess.PIPE, stderr=subprocess.STDOUT, text=True, timeout=timeout, env=env)
-        return p.returncode, p.stdout
+        out, _ = p.communicate(timeout=timeout)
+        return p.returncode, out
     except subprocess.TimeoutExpired:
+        try:
+            os.killpg(p.pid, signal.SIGKILL)
+        except ProcessLookupError:
+            pass
+        p.communicate()
         return 124, "TIMEOUT"
 
 
@@ -120,6 +136,8 @@ def main():
     ap.add_argument("--seed", type=int, default=1)
     ap.add_argument("--out", default="/verif/work/mutation")
     ap.add_argument("--scratch", default="/tmp/mutation_run")
+    ap.add_argument("--retest", default="", help="comma-separated result files: re-run only their suite survivors")
+    ap.add_argument("--kinds", default="", help="restrict the non-literal mutants to these kinds (op,drop-not,del,call)")
     ap.add_argument("--lits", type=float, default=0.35, help="fraction of the sample drawn from literal mutants")
     a = ap.parse_args()
     os.makedirs(a.out, exist_ok=True)
@@ -144,18 +162,34 @@ def main():
                     allm += mutants_of(os.path.relpath(p, S + "/wt/src"), p)
         rng = random.Random(a.seed)
         ops = [m for m in allm if m[5] != "lit"]
+        if a.kinds:
+            ops = [m for m in ops if m[5] in a.kinds.split(",")]
         lits = [m for m in allm if m[5] == "lit"]
         rng.shuffle(ops)
         rng.shuffle(lits)
         nl = int(a.n * a.lits)
         sample = ops[: a.n - nl] + lits[:nl]
         rng.shuffle(sample)
+        if a.retest:
+            # only the mutants that survived the repository's suite in earlier runs (re-judged by the current harness)
+            want = set()
+            for f in a.retest.split(","):
+                for l in open(f):
+                    j = json.loads(l)
+                    if j["suite"] == "survived":
+                        want.add((j["file"], j["line"], j["new"]))
+            sample = []
+            for m in allm:
+                rel, k, c0, c1, repl, kind = m
+                line = open(os.path.join(S, "wt/src", rel)).read().split("\n")[k]
+                if (rel, k + 1, (line[:c0] + repl + line[c1:]).strip()) in want:
+                    sample.append(m)
         print("candidate mutants: %d operators, %d literals; sample %d" % (len(ops), len(lits), len(sample)), flush=True)
         # warm builds
         run(["cargo", "test", "--offline", "--lib", "--no-run"], cwd=S + "/wt", env=env, timeout=1200)
         for prof in (["--release"], ["--profile", "checked"]):
             run(["cargo", "build", "--offline"] + prof, cwd=S + "/harness", env=env, timeout=1800)
-        res = open(os.path.join(a.out, "results_seed%d.jsonl" % a.seed), "a")
+        res = open(os.path.join(a.out, ("retest_seed%d.jsonl" if a.retest else "results_seed%d.jsonl") % a.seed), "a")
         for n, (rel, k, c0, c1, rep, kind) in enumerate(sample):
             path = os.path.join(S, "wt/src", rel)
             orig = open(path).read()
